@@ -1177,17 +1177,24 @@ impl Resolver {
                                     Name::Name(r) => self.variables[*r].definition,
                                     Name::Namespace(_, span) => *span,
                                 };
+                                // An import that tree() appended from the std preamble is not
+                                // what the user wrote: name the user's definition.
+                                let (at, other, note) = if matches!(
+                                    self.span_file(&var.span),
+                                    FileOrLib::Lib(_)
+                                ) && matches!(self.span_file(&span), FileOrLib::File(_))
+                                {
+                                    (span, var.span, "It collides with this import of the standard library")
+                                } else {
+                                    (var.span, span, "First definition is here")
+                                };
                                 let err = resolution_error!(
                                     self,
-                                    var.span,
+                                    at,
                                     "A Name collision - duplicate definitions of {:?}",
                                     var.name
                                 );
-                                errs.push(self.add_help(
-                                    err,
-                                    span,
-                                    "First definition is here".into(),
-                                ));
+                                errs.push(self.add_help(err, other, note.into()));
                             }
                             Entry::Occupied(_) => { /* We allow importing the same thing multiple times */
                             }
